@@ -128,6 +128,8 @@ static bool one_action(int me)
         if (w < 55 && x != me && st[x] == ST_RUNNING) { s.kind = vr_chance(&R, 1, 2) ? 0 : 1; s.tgt = x; VR_CNT(s.kind ? "transfers" : "resumes"); return do_switch(me, &s); }
         if (w < 75 && me != MAIN && alive(caller_of[me])) { s.kind = 2; VR_CNT("yields"); return do_switch(me, &s); }
         if (w < 80 && me != MAIN) { s.kind = 1; s.tgt = MAIN; VR_CNT("transfers_to_main"); return do_switch(me, &s); }
+        /* a transfer to oneself hands the message straight back (and, by the library's rule, makes the coroutine its own caller) */
+        if (w >= 92 && w < 95) { s.kind = 1; s.tgt = me; VR_CNT("transfers_to_self"); return do_switch(me, &s); }
         if (w < 86 && x != me && st[x] == ST_RUNNING && kids[x] == 0) {
             uint64_t v = ++tokctr * 0x9e3779b97f4a7c15ull;
             cmi_coroutine_stop(co[x], (void *)v);
